@@ -42,6 +42,9 @@ pub struct DynType {
     pub av: fn(&dyn Any, bool) -> AV,
     pub to_idl: fn(&dyn Any) -> Result<candid::IDLValue, String>,
     pub container_add: fn(&mut TypeContainer) -> Type,
+    /// decode a message whose first argument is a T under a decoder configuration;
+    /// returns the value and the cost reported by the decoder
+    pub decode_cfg: fn(&[u8], &candid::DecoderConfig) -> Result<(Box<dyn Any>, Option<usize>, Option<usize>), String>,
     /// 0 = not in the thread's type memo, 1 = memoised without knots, 2 = memoised with a knot inside
     pub memo_state: fn() -> u8,
     /// subtype(T::ty(), T::ty()) and equal(..) through the memo (exercises Knot resolution)
@@ -96,6 +99,9 @@ pub fn dyn_of<T: SimTy>() -> DynType {
         av: |v, c| down::<T>(v).av(c),
         to_idl: |v| candid::IDLValue::try_from_candid_type(down::<T>(v)).map_err(err_chain),
         container_add: |c| c.add::<T>(),
+        decode_cfg: |b, cfg| {
+            candid::utils::decode_args_with_config_debug::<(T,)>(b, cfg).map(|((v,), cost)| (Box::new(v) as Box<dyn Any>, cost.decoding_quota, cost.skipping_quota)).map_err(err_chain)
+        },
         memo_state: || match candid::types::internal::find_type(&T::id()) {
             None => 0,
             Some(t) => {
@@ -249,7 +255,7 @@ fn len_for(rng: &mut Rng, size: usize) -> usize {
     match rng.below(6) {
         0 => 0,
         1 => 1,
-        _ => rng.range(0, size.clamp(1, 6) as u64) as usize,
+        _ => rng.range(0, size.clamp(1, 48) as u64) as usize,
     }
 }
 
